@@ -3094,7 +3094,13 @@ func backoffDelay(faults int64, initialDelay, maxDelay time.Duration) time.Durat
 	}
 
 	// a single shift can still wrap around for larger initial delays
-	// (e.g. 100ms << 40); a wrapped value is negative or huge, both clamp
+	// (e.g. 100ms << 40), and the wrapped value is not always negative or
+	// above maxDelay: (2^23+1)ns << 41 wraps to 2^41ns. Compare against the
+	// shifted-down cap first so the shift below can never lose bits.
+	if initialDelay > maxDelay>>uint(shift) {
+		return maxDelay
+	}
+
 	delay := initialDelay << uint(shift)
 	if delay <= 0 || delay > maxDelay {
 		return maxDelay
